@@ -46,6 +46,9 @@ func (c *vfcClient) maxfsStep(r *rand.Rand) {
 		return uint64(v)
 	}
 	switch x := r.Intn(100); {
+	case x < 6:
+		// far beyond any limit (and near the point where offset + length overflows)
+		c.write(f, []string{"m63", "p63", "m64"}[r.Intn(3)], uint64(r.Intn(12)), vfcData(r, 1+r.Intn(6)), 2)
 	case x < 55:
 		c.write(f, "small", pos(), vfcData(r, int(pos())%40), 2)
 	case x < 85:
@@ -74,7 +77,16 @@ func vfcRunMaxfs(t *testing.T, tr *vfTrace, h int, seed int64, steps int) *vfcCl
 		if !atStart && s == steps/3 {
 			// the limit is switched on at run time
 			c.cfg.MaxFS = L
-			c.setPolicy(t, func(p *PolicyOptions) { p.MaxFileSize = int64(L) })
+			if h%4 == 3 {
+				// through UpdateExportOptions, changing nothing else
+				o := c.env.n.GetExportOptions()
+				o.MaxFileSize = int64(L)
+				if err := c.env.n.UpdateExportOptions(o); err != nil {
+					t.Fatalf("UpdateExportOptions: %v", err)
+				}
+			} else {
+				c.setPolicy(t, func(p *PolicyOptions) { p.MaxFileSize = int64(L) })
+			}
 			c.cfgLine()
 		}
 		if !atStart && s == 2*steps/3 && h%4 == 1 {
@@ -422,7 +434,7 @@ func vfcCrashHistory(r *rand.Rand) []vfcCrashOp {
 // vfcRunCrash runs one history with a crash injected at backend operation k (0 = none);
 // returns the number of countable backend operations the history needed.
 func vfcRunCrash(t *testing.T, tr *vfTrace, h int, seed int64, ops []vfcCrashOp, k int64) int64 {
-	cfg := vfcCfg{TTL: "min", Profile: "crash"}
+	cfg := vfcCfg{TTL: "min", Profile: "crash", Async: h%2 == 1}
 	fs := vfNewFS()
 	fs.vfPoke("/f0", "F", []byte{9, 9, 9}, "", 0644)
 	fs.vfPoke("/f1", "F", []byte{}, "", 0644)
